@@ -385,6 +385,48 @@ def rule_r7(chk, facts, P):
         raise AnalysisBroken('only %d comparisons against stored user-defined names found' % n_)
 
 
+def rule_r8(chk, facts, P):
+    chk.rule('C13-R8', 'asmpars.c PUSHV/POPV: the list of named symbol stacks is searched by PopSymbol() with an ordering '
+             'comparison (the walk stops at the first name that is not smaller); PushSymbol() therefore inserts a new stack '
+             'at the position the same ordering walk leaves it at - both functions walk FirstStack with the same '
+             'relational strcmp() test, and the new element is linked behind the walk\'s predecessor', min_instances=3)
+
+    def ordering_loops(f):
+        out = []
+        for (h, s0) in f.loops():
+            body = f.loop_body(h, s0)
+            for bb in body | {h}:
+                c = f.blocks[bb].get('cond')
+                if c is None:
+                    continue
+                for m in walk(c):
+                    if isinstance(m, (list, tuple)) and len(m) > 3 and m[0] == 'b' and m[1] in ('<', '>', '<=', '>=') and \
+                            nocast(m[2])[0] == 'call' and callee_name(nocast(m[2])) == 'strcmp' and const_val(m[3]) == 0 and \
+                            mentions(m[2], lambda x: isinstance(x, (list, tuple)) and len(x) > 2 and x[0] == 'm' and x[2] == 'sSymbolStack.Name'):
+                        out.append((m[1], h))
+        return out
+    pop = facts.func('asmpars.c', 'PopSymbol')
+    push = facts.func('asmpars.c', 'PushSymbol')
+    lp, lq = ordering_loops(pop), ordering_loops(push)
+    chk.ob('C13-R8', 'asmpars.c:PopSymbol:ordered-search', True, pop.loc(),
+           'walk with strcmp %s 0' % lp[0][0] if lp else 'searches by equality (no order assumed)')
+    if lp:
+        ok = bool(lq) and lq[0][0] == lp[0][0]
+        chk.ob('C13-R8', 'asmpars.c:PushSymbol:same-ordering-walk', ok, push.loc(),
+               'same ordering walk' if ok else
+               'PopSymbol() stops its walk at the first stack name that is not smaller than the wanted one, but PushSymbol() does '
+               'not place a new stack by that order: a stack that sits behind an alphabetically greater one is never found '
+               'again ("stack is empty or undefined")')
+        # the link of the new element goes through the walk's predecessor variable (or the head when there is none)
+        links = [(b, i, ln, m) for b, i, ln, m in push.nodes() if is_assign(m) and m[1] == '=' and
+                 (strip(m[2]) == ('gs', 'FirstStack') or (strip(m[2])[0] == 'm' and strip(m[2])[2] == 'sSymbolStack.Next' and strip(strip(m[2])[1])[0] == 'l'))]
+        head = [x for x in links if strip(x[3][2]) == ('gs', 'FirstStack')]
+        okh = all(push.guarded(b, i, lambda l: edge_has_atom(l, lambda a: a[0] == 'z' and a[1][0] == 'l'))[0] for b, i, ln, m in head) and bool(head)
+        chk.ob('C13-R8', 'asmpars.c:PushSymbol:head-link-only-without-predecessor', okh, push.loc(head[0][2] if head else None),
+               'FirstStack is replaced only when the walk found no smaller element' if okh else
+               'a new stack is linked at the head of the list regardless of the ordering walk')
+
+
 def rule_r5(chk, facts, P):
     chk.rule('C13-R5', 'asmpars.c/asmallg.c: a loop that walks the chain of open sections (innermost first) or a '
              'FORWARD/PUBLIC list and compares names stops at the first match: the edge on which the comparison '
@@ -432,5 +474,6 @@ def run(chk, facts, info):
     rule_r4(chk, facts, P)
     rule_r6(chk, facts, P)
     rule_r7(chk, facts, P)
+    rule_r8(chk, facts, P)
     chk.note('Decided: case folding before keyed lookups/inserts, local-before-global lookup order, redefinition guards, '
              'balance of global-scope escapes. Not decided: section-tree resolution results, temporary-symbol binding.')
